@@ -116,6 +116,25 @@ STRENGTHENED = {
     'C20_m9': 'a comment-only file included by both inputs; a joint run that fails while each input compiles alone is '
               'a violation',
     'C20_m10': 'two inputs whose names agree up to the first dot (msg.v1.prophy, msg.v2.prophy)',
+    'C02_m11': 'packed mode (prophy.struct_packed, docs/python_codec.rst): hand-written packed descriptors, nested, in '
+               'arrays, with dynamic members; expected bytes are the fields one after the other',
+    'C04_m11': 'the schema written with composite/typedef types for some integer fields and put right by patch `type` '
+               'rules: model and Python statics of the patched schema',
+    'C05_m11': 'every C++ worker first generates a decoy full-codec schema that defines the helper types\' names with '
+               'other sizes, alignments and stiffness',
+    'C08_m12': 'behaviour of the overlay on the canary file: the generated swap (prophy::cast + member access through the '
+               'overlay structs) must turn canonical foreign-endian bytes into canonical native bytes',
+    'C12_m11': 'the prelude has earlier structs with integer fields called like the sizers the breakers name',
+    'C14_m11': 'isar scenario judged on the model: shiftLeft / bitMaskOr nested in themselves and in each other',
+    'C14_m12': 'same scenario: constants in limits.xml and in a same-named codec/limits.xml reached through another include',
+    'C15_m11': 'up to three includes in front of the definitions',
+    'C16_m11': 'arrangement abs-I-rel-inputs: relative inputs with absolute -I directories (one file, two spellings)',
+    'C17_m11': 'default-constructed (untouched) messages are compared between the front-ends (first arm, first enumerator)',
+    'C18_m11': 'a chain nested ten levels deep (struct / array element / optional / union arm in turn) in the canary file',
+    'C19_m11': 'every other case is built sparsely (what equals its default is never touched); default values are not '
+               'skipped when their encoding has non-zero bytes',
+    'C20_m11': 'one file reached through a same-named symbolic link in every input directory, including its sibling',
+    'C20_m12': 'a run started from a directory that holds a same-named, different file of what -I must supply',
 }
 
 
